@@ -400,7 +400,7 @@ func ScriptOutcome(kind string, script []string, http bool) (class string, meta 
 			if !reply("error:system.internalError") {
 				stop = true
 			}
-		case "errStd":
+		case "errStd", "errStdData":
 			if !reply("error:system.notFound") {
 				stop = true
 			}
